@@ -70,16 +70,23 @@ OrphanFix(o, X) ==
   IF Y = X THEN X ELSE OrphanFix(o, Y)
 OrphanSet(o) == OrphanFix(o, {i \in Idx(o) : o.lines[i].virt = 1})
 Orphan(o, i) == i \in OrphanSet(o)
-VirtualOK(s, o) ==
-  /\ \A id \in VirtSegIds(s) : \E i \in VirtNamed(o) : Rec(o.lines[i]).name = id /\ Rec(o.lines[i]).rt = "S"
-  /\ \A id \in UnknownIds(s) : \E i \in VirtNamed(o) : Rec(o.lines[i]).name = id
-  /\ \A i \in VirtNamed(o) : Rec(o.lines[i]).name \in PlaceholderIds(s) \/ (s.orph /\ Orphan(o, i))
+\* functions of the document that several clauses need, computed once per event
+Derive(s) == LET names == NamesOf(s)
+                 vseg == AllSegMentions(s) \ names
+                 unk == (AllItemMentions(s) \ names) \ vseg IN
+             [names |-> names, vseg |-> vseg, unk |-> unk, ph |-> vseg \cup unk,
+              vlk |-> VirtLinkKeys(s)]
+
+VirtualOK(s, d, o) ==
+  /\ \A id \in d.vseg : \E i \in VirtNamed(o) : Rec(o.lines[i]).name = id /\ Rec(o.lines[i]).rt = "S"
+  /\ \A id \in d.unk : \E i \in VirtNamed(o) : Rec(o.lines[i]).name = id
+  /\ \A i \in VirtNamed(o) : Rec(o.lines[i]).name \in d.ph \/ (s.orph /\ Orphan(o, i))
   /\ \A i, j \in VirtNamed(o) : Rec(o.lines[i]).name = Rec(o.lines[j]).name => i = j
-  /\ \A K \in VirtLinkKeys(s) : \E i \in VirtLinks(o) : EdgeKey(AsReq(Rec(o.lines[i]))) = K
-  /\ \A i \in VirtLinks(o) : EdgeKey(AsReq(Rec(o.lines[i]))) \in VirtLinkKeys(s) \/ (s.orph /\ Orphan(o, i))
+  /\ \A K \in d.vlk : \E i \in VirtLinks(o) : EdgeKey(AsReq(Rec(o.lines[i]))) = K
+  /\ \A i \in VirtLinks(o) : EdgeKey(AsReq(Rec(o.lines[i]))) \in d.vlk \/ (s.orph /\ Orphan(o, i))
   /\ \A i \in VirtIdx(o) : Rec(o.lines[i]).rt \in {"S", "?", "L"}
 \* no placeholder for an identifier the document defines
-NoShadow(s, o) == \A i \in VirtNamed(o) : Rec(o.lines[i]).name \notin NamesOf(s)
+NoShadow(s, d, o) == \A i \in VirtNamed(o) : Rec(o.lines[i]).name \notin d.names
 
 \* back-reference collections of every identified line and placeholder (C11 keys)
 LoggedFilings(o, j) ==
@@ -123,11 +130,12 @@ FlagsOK(s, o) == \A i \in Idx(o) :
 
 \* identifiers and lookup (C09)
 LoggedVirtNames(o) == {Rec(o.lines[i]).name : i \in {j \in VirtIdx(o) : Rec(o.lines[j]).rt = "S"}}
-NamesOK(s, o) ==
-  LET real == SelectSeq(o.names, LAMBDA n : n \notin LoggedVirtNames(o)) IN
-  /\ Rng(real) = NamesOf(s)
-  /\ \A n \in NamesOf(s) : Cardinality({k \in DOMAIN real : real[k] = n}) = 1
-LookupOK(s, o) == \A k \in DOMAIN o.look :
+NamesOK(s, d, o) ==
+  LET lv == LoggedVirtNames(o)
+      real == SelectSeq(o.names, LAMBDA n : n \notin lv) IN
+  /\ Rng(real) = d.names
+  /\ \A n \in d.names : Cardinality({k \in DOMAIN real : real[k] = n}) = 1
+LookupOK(s, d, o) == \A k \in DOMAIN o.look :
   LET e == o.look[k]
       id == e[1]
       tg == IdxNamed(s, id) IN
@@ -136,34 +144,35 @@ LookupOK(s, o) == \A k \in DOMAIN o.look :
      /\ e[2] >= 1 /\ NormRec(o.lines[e[2]]) = Norm(r) /\ o.lines[e[2]].virt = 0
      /\ e[4] = e[2]
      /\ (IF r.rt = "S" THEN e[3] = e[2] ELSE e[3] = 0)
-  ELSE IF id \in PlaceholderIds(s) THEN
+  ELSE IF id \in d.ph THEN
      /\ e[2] >= 1 /\ o.lines[e[2]].virt = 1 /\ Rec(o.lines[e[2]]).name = id
      /\ e[4] = e[2]
   ELSE \/ e[2] = 0 /\ e[3] = 0 /\ e[4] = -10
        \/ s.orph /\ e[2] >= 1 /\ Orphan(o, e[2]) /\ e[4] = e[2]
 
 \* components and counters (C16); compared only when no placeholder is around
-TopoOK(s, o) ==
-  (PlaceholderIds(s) = {} /\ VirtIdx(o) = {}) =>
+TopoOK(s, d, o) ==
+  (d.ph = {} /\ VirtIdx(o) = {}) =>
     /\ {Rng(o.cc[k]) : k \in DOMAIN o.cc} = Components(s)
     /\ Len(o.cc) = Cardinality(Components(s))
-CountsOK(s, o) ==
-  (PlaceholderIds(s) = {} /\ VirtIdx(o) = {}) =>
+CountsOK(s, d, o) ==
+  (d.ph = {} /\ VirtIdx(o) = {}) =>
     /\ o.nd = NDovetails(s) /\ o.nc = NContainments(s) /\ o.ni = NInternals(s)
     /\ o.nde = NDeadEnds(s)
 
 ExpFails(s, o) ==
+  LET d == Derive(s) IN
   (IF VersionOK(s, o) THEN {} ELSE {"version"})
   \cup (IF LinesOK(s, o) THEN {} ELSE {"lines"})
   \cup (IF HdrOK(s, o) THEN {} ELSE {"hdr"})
-  \cup (IF VirtualOK(s, o) THEN {} ELSE {"virtual"})
-  \cup (IF NoShadow(s, o) THEN {} ELSE {"shadow"})
+  \cup (IF VirtualOK(s, d, o) THEN {} ELSE {"virtual"})
+  \cup (IF NoShadow(s, d, o) THEN {} ELSE {"shadow"})
   \cup (IF Closed(o) /\ ~KeysOK(s, o) THEN {"keys"} ELSE {})
   \cup (IF Closed(o) /\ ~FlagsOK(s, o) THEN {"flags"} ELSE {})
-  \cup (IF NamesOK(s, o) THEN {} ELSE {"names"})
-  \cup (IF LookupListed(o) /\ ~LookupOK(s, o) THEN {"lookup"} ELSE {})
-  \cup (IF TopoOK(s, o) THEN {} ELSE {"components"})
-  \cup (IF CountsOK(s, o) THEN {} ELSE {"counts"})
+  \cup (IF NamesOK(s, d, o) THEN {} ELSE {"names"})
+  \cup (IF LookupListed(o) /\ ~LookupOK(s, d, o) THEN {"lookup"} ELSE {})
+  \cup (IF TopoOK(s, d, o) THEN {} ELSE {"components"})
+  \cup (IF CountsOK(s, d, o) THEN {} ELSE {"counts"})
 
 -----------------------------------------------------------------------------
 (* result classes *)
